@@ -8,7 +8,9 @@
             trainsets: <<<<ids>>>>                                  -- what brew handed to the training-set constructor
             fits:  <<[model, train: <<ids>>]>>                      -- Model.fit(train set): model = its fold number
             trained: BOOLEAN                                        -- every returned fold model is trained
-            preds: <<[model, file, ids: <<ids>>, raw: <<ints>>]>>   -- final Model.predict calls (one per fold per chunk)
+            preds: <<[model, file, ids: <<ids>>, raw: <<ints>>, est_train: <<ids>>, est]>>   -- final Model.predict calls (one per fold
+                                                                       per chunk); est_train = the rows the estimator object
+                                                                       that scored was last fitted on
             raised: "" | "Type: msg",
             scores: <<[id, num, den, ok, nan]>>                     -- returned calibrated score of every row
             calibrated: BOOLEAN                                     -- the estimator exposes a decision function ]
@@ -77,6 +79,13 @@ Check(R) ==     \* R: id -> row record, bound once
                          /\ \A a, b \in Models : a # b => HeldAll(a) \cap HeldAll(b) = {},
    SpectrumClosed |-> Done => \A a, b \in Models : a # b => SpecsOf(HeldAll(a)) \cap SpecsOf(HeldAll(b)) = {},
    NoLeak |-> Done => \A m \in Models : SpecsOf(Train(m)) \cap SpecsOf(HeldAll(m)) = {},
+   \* the same at the level of the estimator OBJECT that produced the scores (fold models that share one estimator object all
+   \* score with the state of the last fit): the rows it was last fitted on share no spectrum with the rows it scores
+   \* fold models that were fitted in this run do not share one estimator object
+   EstimatorsDistinct |-> (Done /\ Len(T.fits) > 0) => \A i, j \in 1..Len(T.preds) :
+                             (T.preds[i].model # T.preds[j].model /\ T.preds[i].est # 0) => T.preds[i].est # T.preds[j].est,
+   NoLeakEstimator |-> Done => \A i \in 1..Len(T.preds) :
+                          SpecsOf(SeqSet(T.preds[i].est_train) \cap Ids) \cap SpecsOf(SeqSet(T.preds[i].ids)) = {},
    TrainComplement |-> Done => \A m \in Models :
                          IF T.capped THEN Train(m) \subseteq (Ids \ HeldAll(m)) /\ Cardinality(Train(m)) <= T.cap
                          ELSE Train(m) = Ids \ HeldAll(m),
